@@ -78,10 +78,19 @@ class Ctx:
 
 
 def load_known():
-    if not os.path.exists(KNOWN_FILE):
-        return []
-    with open(KNOWN_FILE) as fh:
-        return json.load(fh).get("findings", [])
+    out = []
+    if os.path.exists(KNOWN_FILE):
+        with open(KNOWN_FILE) as fh:
+            out = json.load(fh).get("findings", [])
+    # development harnesses only (selftest/): a corpus patch that is kept against an older commit of /repo is analysed on a
+    # scratch tree of that commit (UBCHECK_SRC), where the defects repaired since are still present; they are listed per base
+    # commit in selftest/base_known/.  Never honoured for /repo itself.
+    extra = os.environ.get("UBCHECK_BASE_KNOWN")
+    if extra and os.environ.get("UBCHECK_SRC") and os.path.dirname(os.path.abspath(extra)) == os.path.join(
+            os.path.dirname(os.path.dirname(os.path.abspath(__file__))), "selftest", "base_known"):
+        with open(extra) as fh:
+            out = out + json.load(fh).get("findings", [])
+    return out
 
 
 def finding_line(o):
